@@ -1365,6 +1365,34 @@ theorem expand_twice_counterexample :
         [.expand, .shrink, .expand]).toOption.map (fun o => String.ofList (strL o.kids))) = some "Def/A" := by
   decide
 
+def tDeB : Tag := { base := .defExpand, ext := ['/', 'B'], org := ['d', 'e', 'f', '-', 'e', 'x', 'p', 'a', 'n', 'd', '/', 'b'] }
+def tDefB : Tag := { base := .def_, ext := ['/', 'B'], org := ['d', 'e', 'f', '/', 'b'] }
+def ddAB : DefDict := ddA ++ [⟨['B'], ['B'], [.tag tRed], false⟩]
+
+/-- **shrink_twice_keyerror_counterexample**: a group holding two Def-expand tags, `(Def-expand/A, Def-expand/B)`.
+The former `shrink_defs` visited the group a second time after it had been replaced and raised KeyError; the
+code now skips the second visit and the group becomes its first tag, `Def/A`.  What the code does with written
+multi-tag groups, stated exactly: `(Def-expand/A, (Red), Def-expand/B, (Blue))` shrinks to `Def/A` (everything
+but the first Def-expand tag is dropped).  Groups of several `Def` tags are a different matter: `(Def/A, Def/B)`
+expands to `((Def-expand/A,(Blue,Red)),(Def-expand/B,(Red)))` and shrinks back to `(Def/A,Def/B)`. -/
+theorem shrink_twice_keyerror_counterexample :
+    (match shrinkLegacyG true { kids := [.grp [.tag tDeA, .tag tDeB]] } with
+      | .error .keyError => true | _ => false) = true ∧
+    ((shrinkG true { kids := [.grp [.tag tDeA, .tag tDeB]] }).toOption.map
+        (fun o => String.ofList (strL o.kids))) = some "Def/A" ∧
+    ((shrinkG true { kids := [.grp [.tag tDeA, .grp [.tag tRed], .tag tDeB, .grp [.tag tBlue]]] }).toOption.map
+        (fun o => String.ofList (strL o.kids))) = some "Def/A" ∧
+    ((runG id true true ddAB { kids := [.grp [.tag tDefA, .tag tDefB]] } [.expand]).toOption.map
+        (fun o => String.ofList (strL o.kids))) = some "((Def-expand/A,(Blue,Red)),(Def-expand/B,(Red)))" ∧
+    ((runG id true true ddAB { kids := [.grp [.tag tDefA, .tag tDefB]] } [.expand, .shrink]).toOption.map
+        (fun o => String.ofList (strL o.kids))) = some "(Def/A,Def/B)" := by
+  decide
+
+/-- **shrink_total**: `shrink_defs` raises nothing on an object without a cycle — whatever its groups hold. -/
+theorem shrink_total (fix : Bool) (o : Obj) (hc : o.cyclic = false) :
+    shrinkG fix o = .ok { o with kids := shrL fix o.kids } := by
+  simp [shrinkG, hc]
+
 /-- **validate_detach_counterexample**: if `validate` handed the live tag to `get_definition` (no copy), the tag's
 `_parent` would point outside the tree: a following `expand_defs` only renames the tag (`Def-expand/A` without its
 content), and a written Def-expand group is no longer shrunk.  With the copy (the code) both behave. -/
